@@ -51,10 +51,15 @@ def all_valid_bases(p):
     return out
 
 
+NAME_BOUNDARY = [7, 8, 9, 14, 15, 16, 22, 23, 24, 31]
+
+
 def rand_names(r, k, maxlen, used):
     out = []
     while len(out) < k:
-        n = "".join(r.choice(ALPHA) for _ in range(r.randint(1, maxlen)))
+        # lengths at and around the field boundaries of the BAS layout (8-character name fields, 7 blanks between them)
+        ln = r.choice(NAME_BOUNDARY) if (maxlen > 8 and r.random() < 0.35) else r.randint(1, maxlen)
+        n = "".join(r.choice(ALPHA) for _ in range(ln))
         if n[0] == "$" or n in used or n in ("ENDATA", "NAME", "RHS", "RANGES", "BOUNDS", "ROWS", "COLUMNS", "MINIMIZE"):
             continue
         used.add(n)
@@ -102,8 +107,8 @@ def part_bas(ck, exe, model):
             r.shuffle(bases)
             bases = bases[:cap]
         used = set()
-        rn = rand_names(r, m, r.choice([3, 8, 12]), used)
-        cn = rand_names(r, n, r.choice([3, 8, 12]), used)
+        rn = rand_names(r, m, r.choice([3, 8, 12, 20]), used)
+        cn = rand_names(r, n, r.choice([3, 8, 12, 20]), used)
         for (rows, cols) in bases:
             jobs.append(("b%d" % k, p, rows, cols, rn, cn, "enum"))
             k += 1
@@ -112,7 +117,8 @@ def part_bas(ck, exe, model):
         p = lpgen.gen_around_point(r, 8 if quick else 14) if r.random() < 0.7 else lpgen.gen_random(r, 8 if quick else 14)
         rows, cols = bc.random_valid_basis(r, p, free_zero_only=(r.random() < 0.7))
         used = set()
-        jobs.append(("b%d" % k, p, rows, cols, rand_names(r, p.m, 8, used), rand_names(r, p.n, 8, used), "random"))
+        ml = r.choice([8, 8, 12, 24])
+        jobs.append(("b%d" % k, p, rows, cols, rand_names(r, p.m, ml, used), rand_names(r, p.n, ml, used), "random"))
         k += 1
     htxt, meta = "", {}
     for (cid, p, rows, cols, rn, cn, fam) in jobs:
